@@ -5,7 +5,7 @@
    so every theorem holds for all of Unicode. *)
 From Coq Require Import NArith List.
 From GV Require Import Base.Result Gen.TokenTypes Gen.Tokens Model.Lexer Spec.LexSpec
-  Proofs.C13.LexRun Proofs.C13.LexPosRun Proofs.C13.LexOp.
+  Proofs.C13.LexRun Proofs.C13.LexPosRun Proofs.C13.LexOp Proofs.C13.LexBlankSpec.
 Import ListNotations.
 Local Open Scope N_scope.
 
@@ -80,6 +80,43 @@ Theorem C13_longest_match : forall un ua s ts,
       ~ (exists r, tok_text t ++ concat (map tok_text post) = sp ++ r).
 Proof. exact lex_longest_match. Qed.
 Print Assumptions C13_longest_match.
+
+(* (e) a blank line separates sub-expressions: wherever the input has two consecutive line
+   feeds, the token containing the first one is a Subexpression token, unless that line feed
+   lies in a char/byte list literal or ends a line annotation.  What precedes the blank line
+   (in particular trailing spaces or tabs) is irrelevant. *)
+Theorem C13_blank_lines_separate : forall un ua s ts,
+  lex un ua s = Ok ts ->
+  forall i t,
+    nth_error (concat (map tok_text ts)) i = Some 10 /\ nth_error (concat (map tok_text ts)) (S i) = Some 10 ->
+    (exists pre post, ts = pre ++ t :: post /\
+       (length (concat (map tok_text pre)) <= i < length (concat (map tok_text pre)) + length (tok_text t))%nat) ->
+    tok_type t = TT_Subexpression \/ tok_type t = TT_CharList \/ tok_type t = TT_ByteList \/
+    tok_type t = TT_LineAnnotation.
+Proof. exact lex_blank_lines_separate. Qed.
+Print Assumptions C13_blank_lines_separate.
+
+(* the same for an input written  x ++ pad ++ LF LF ++ y : the token covering the first
+   line feed after [pad] is a Subexpression token whenever it is not a literal or a line
+   annotation -- for every [pad] (spaces, tabs, or anything else) *)
+Theorem C13_blank_line_separates : forall un ua x pad y ts,
+  lex un ua (x ++ pad ++ [10; 10] ++ y) = Ok ts ->
+  forall t,
+    (exists pre post, ts = pre ++ t :: post /\
+       (length (concat (map tok_text pre)) <= length x + length pad
+        < length (concat (map tok_text pre)) + length (tok_text t))%nat) ->
+    tok_type t <> TT_CharList -> tok_type t <> TT_ByteList -> tok_type t <> TT_LineAnnotation ->
+    tok_type t = TT_Subexpression.
+Proof. exact lex_blank_line_separates. Qed.
+Print Assumptions C13_blank_line_separates.
+
+(* The clause as DESIGN.md section 8 words it (hypothesis on the prefix x instead of on the
+   covering token) is kept visible; it is NOT proved (it needs a compositional lemma for
+   lexing a prefix).  The two theorems above are the proved form; the correspondence check
+   exercises this form on the blank-line family of inputs. *)
+Definition C13_blank_line_full_statement : Prop :=
+  forall un ua,
+    blank_line_full_statement (fun s => match lex un ua s with Ok ts => Some ts | _ => None end).
 
 (* non-vacuity: lex succeeds on inputs that exercise the repaired paths *)
 Example C13_ex_runs : forall un ua,
